@@ -550,6 +550,14 @@ class SampleList(SampleListBase):
                 fname = _sample_file_name(file_name_base, isample)
                 _save_to_disk(fname, obj, overwrite)
 
+        # Remove the mean of a `ResidualSampleList` that may have been saved
+        # under the same name before. Otherwise the files on disk would be
+        # mistaken for a `ResidualSampleList` later on.
+        if overwrite:
+            with ensure_all_tasks_succeed(self.comm):
+                if self.MPI_master:
+                    pathlib.Path(f"{file_name_base}.mean.pickle").unlink(missing_ok=True)
+
     @classmethod
     def load(cls, file_name_base, comm=None):
         from ..logger import logger
